@@ -595,7 +595,11 @@ fn wide_docs(rng: &mut Rng, thorough: bool) -> Vec<(String, Vec<u8>)> {
         let sep = if rng.chance(1, 2) { "\n" } else { " " };
         push(items.join(sep));
     }
-    v
+    // documents with `k254` (symbol id 256 = 0 mod 256: an 8-bit truncation turns it into `end`, which the runtime
+    // asserts against) go last, so that everything else is on file before such an abort
+    let (mut a, b): (Vec<_>, Vec<_>) = v.into_iter().partition(|(_, t)| !t.windows(4).any(|w| w == b"k254"));
+    a.extend(b);
+    a
 }
 
 static PARSE_STARTED:std::sync::atomic::AtomicU64 = std::sync::atomic::AtomicU64::new(0);
